@@ -20,7 +20,7 @@ RULE = ("requests / responses / chunks / last-chunks built through tx_request, t
         "and fed to a receiver whose limits admit them; the expected start line, header map, framing and payload follow from "
         "the components; messages whose Content-Length the application states itself next to fields that only mention a framing "
         "header in their name or value; hex/dec number round trips; distinct = distinct component tuple; all are non-trivial")
-TRUSTED_BASE = ["tools/cxx2lean.py + tools/cxx2lean_rx.py (translator of the parse_char / parse state machines, message_headers::parse, rx_chunk::parse, rx_request / rx_response::parse and request_receiver / response_receiver::receive + clear from the current C++ into Lean; the model is proved equal to the translation in ViaProofs/Trans; NOT translated and mapped by name to model functions: the header look-ups of message_headers (find, content_length, is_chunked, expect_continue, close_connection))", "Lean 4.33 kernel", "axioms: propext, Classical.choice, Quot.sound at most",
+TRUSTED_BASE = ["tools/cxx2lean.py + cxx2lean_rx.py + cxx2lean_enc.py (translator, from the current C++ into Lean, of the parse_char / parse state machines, message_headers::parse, rx_chunk::parse, rx_request / rx_response::parse, request_receiver / response_receiver::receive + clear, the header look-ups content_length / is_chunked / close_connection / expect_continue, the predicates keep_alive / missing_host_header / expect_continue / is_head / is_trace, and the encoders incl. are_headers_split and tx_response::is_valid; the model is proved equal to the translation in ViaProofs/Trans; mapped by name, not translated: std::unordered_map::find, strtol-based from_dec_string / from_hex_string, stringstream-based to_hex_string, std::string::find, std::transform(tolower))", "Lean 4.33 kernel", "axioms: propext, Classical.choice, Quot.sound at most",
                 "tools/extract.py (header name tables, reason phrases, method names re-extracted every run)",
                 "rx_driver + via_model driver"]
 ASSUMPTIONS = ["valid components: method upper-case within the limit, target without blanks/line ends, token header names, values "
